@@ -71,12 +71,29 @@ func main() {
 		for _, w := range why {
 			fmt.Printf("   inconclusive: %s\n", w)
 		}
+		seenL := map[string]int{}
 		for _, v := range r.ViolationInfos() {
-			fmt.Printf("   VIOLATION %s: %s model=%v choices=%v\n", v.Label, v.Detail, v.Model, v.Choices)
+			seenL[v.Label]++
+			if seenL[v.Label] <= 2 {
+				mm := map[string]uint64{}
+				for k, x := range v.Model {
+					if !strings.HasPrefix(k, "cmem#") {
+						mm[k] = x
+					}
+				}
+				fmt.Printf("   VIOLATION %s: %s model=%v choices=%v decisions=%d\n", v.Label, v.Detail, mm, v.Choices, len(v.Decisions))
+			}
 			exit = 1
 		}
+		for l, n := range seenL {
+			fmt.Printf("   violations with label %q: %d\n", l, n)
+		}
+		seenK := map[string]int{}
 		for _, v := range r.KnownInfos() {
-			fmt.Printf("   known %s (%s) model=%v\n", v.KnownID, v.Label, v.Model)
+			seenK[v.KnownID+"/"+v.Label]++
+		}
+		for l, n := range seenK {
+			fmt.Printf("   known-finding hits %s: %d\n", l, n)
 		}
 		if *verbose || os.Getenv("GOSYM_FORKS") != "" {
 			type kv struct {
